@@ -1,8 +1,36 @@
-"""C13 - engine K (Kani) harnesses, see harness/src/c13.rs and engine_k/harnesses.json"""
+"""C13 - peer messages: engine K harnesses (harness/src/c13.rs) plus an engine M obligation on the
+address-descriptor length arithmetic used by node_announcement encoding / decoding"""
+import re
+import z3
+from engine_m import exec as X
+from engine_m.session import Binding
 from engine_k import runner as K
+from .common import *
 
-EVIDENCE = dict(assumptions=['kernel only: key-free peer messages (no secp256k1 PublicKey/Signature under Kani); inputs bounded as stated per harness; onion packets, large vectors and wire::read are outside the claim', 'Kani model: bitcoin-io io::Error payload compiled out under cfg(kani)'])
+EVIDENCE = dict(assumptions=['kernel only: key-free peer messages (no secp256k1 PublicKey/Signature under Kani); inputs bounded as stated per harness; onion packets, large vectors and wire::read are outside the claim', 'Kani model: bitcoin-io io::Error payload compiled out under cfg(kani)', 'SocketAddress::len: hostname length is an arbitrary u8 (Hostname::len abstracted)'])
 
 
 def run(S):
+    D = S.decls()
+    socket_address_len(S, D)
     K.run_property(S, 'C13')
+
+
+def socket_address_len(S, D):
+    E = S.engine()
+    mem = {}
+    f = S.fn('len', first_param='SocketAddress')
+    hl = E.sym('hostname_len', 'u8')
+    E.models.insert(0, (re.compile(r'Hostname::len$'), lambda *a: hl))
+    addr = E.sym('addr', f.params[0][1], mem)
+    rv = S.call(E, f, [addr], mem)
+    kind = X.zint(mem[addr.cell].d)
+    V = lambda n: D.variant_index('SocketAddress', n)
+    ok_ = z3.Int('o.kind')
+    E.assume(ok_ == z3.If(kind == V('TcpIpV4'), 0, z3.If(kind == V('TcpIpV6'), 1, z3.If(kind == V('OnionV2'), 2, z3.If(kind == V('OnionV3'), 3, 4)))))
+    b = Binding('socket_address_len', [ok_, hl.t], [rv.t], panic=z3.Or(*[X.zbool(p[0]) for p in E.panics]) if E.panics else False)
+    spec = z3.If(kind == V('TcpIpV4'), 6, z3.If(kind == V('TcpIpV6'), 18, z3.If(kind == V('OnionV2'), 12, z3.If(kind == V('OnionV3'), 37, hl.t + 3))))
+    S.prove('C13.m.address_len', E, [], z3.And(rv.t == spec, rv.t <= 258),
+            'the byte length of every address descriptor (as used for the node_announcement addrlen field) is exact: 6 / 18 / 12 / 37, and hostname length + 3 for DNS hostnames; never above SocketAddress::MAX_LEN',
+            [b], bounds='all five address kinds, all hostname lengths 0..=255')
+    S.no_panic('C13.m.address_len_nopanic', E, [], 'no arithmetic overflow for any hostname length (253..=255 included)', [b])
